@@ -112,12 +112,22 @@ def read_pmat(repo):
         if f not in mod.funcs:
             raise TranslateError("%s: function %s not found" % (REL, f))
         out["lines"][f] = mod.funcs[f].lineno
-        check_no_inplace_on_arguments(mod.funcs[f], "%s %s" % (REL, f))
+        todo, seen = [f], set()
+        while todo:      # the function and every module-level helper it calls by name
+            g = todo.pop()
+            if g in seen or g not in mod.funcs:
+                continue
+            seen.add(g)
+            check_no_inplace_on_arguments(mod.funcs[g], "%s %s" % (REL, g))
+            for nd in ast.walk(mod.funcs[g]):
+                if isinstance(nd, ast.Call) and isinstance(nd.func, ast.Name) and nd.func.id in mod.funcs:
+                    todo.append(nd.func.id)
     # ---- KelvinMandel_Matrix ------------------------------------------------------------
     out["km"] = {}
     for dim, n in ((2, 3), (3, 6)):
         M = vars_mat("m", n)
         it = S.Interp("KelvinMandel_Matrix(dim=%d)" % dim)
+        it.modfuncs = mod.funcs
         r = it.run(mod.funcs["KelvinMandel_Matrix"], {"dim": dim, "M": M})
         S.need(r, it.where)
         if not (isinstance(r, Arr) and r.shape == (n, n)):
@@ -146,6 +156,7 @@ def read_pmat(repo):
         rec = {}
         for mandel in (True, False):
             it = _PmatInterp("Get_Pmat(dim=%d,useMandel=%s)" % (dim, mandel), [(list(a), ('v', 'n1')), (list(b), ('v', 'n2'))])
+            it.modfuncs = mod.funcs
             r = it.run(mod.funcs["Get_Pmat"], {"axis_1": Arr(list(a)), "axis_2": Arr(list(b)), "useMandel": mandel})
             S.need(r, it.where)
             n = 3 if dim == 2 else 6
@@ -173,6 +184,7 @@ def read_pmat(repo):
     for tg in (True, False):
         P, M = vars_mat("p", 6), vars_mat("m", 6)
         it = S.Interp("Apply_Pmat(toGlobal=%s)" % tg)
+        it.modfuncs = mod.funcs
         seen = {}
 
         def einsum(args, kw, seen=seen, P=P, M=M, it=it):
